@@ -296,7 +296,7 @@ func spawn(worker, prop string, seed uint64, from, to int64, gomaxprocs int, ext
 	args = append(args, extra...)
 	raceLog := filepath.Join(buildDir(), "race", fmt.Sprintf("%s-%d", prop, id))
 	os.MkdirAll(filepath.Dir(raceLog), 0o755)
-	ee := []string{"GORACE=log_path=" + raceLog + " halt_on_error=0 history_size=2", "GOMEMLIMIT=3GiB"}
+	ee := []string{"GORACE=log_path=" + raceLog + " halt_on_error=0 exitcode=0 history_size=2", "GOMEMLIMIT=3GiB"}
 	if gomaxprocs > 0 {
 		ee = append(ee, "GOMAXPROCS="+strconv.Itoa(gomaxprocs))
 	}
@@ -341,7 +341,7 @@ func replayPath(worker, prop, inPath string, verbose bool, id int) (*runRec, err
 	os.MkdirAll(filepath.Dir(raceLog), 0o755)
 	cmd := exec.Command(worker, args...)
 	cmd.Dir = root
-	cmd.Env = append(env(), "GORACE=log_path="+raceLog+" halt_on_error=0 history_size=2", "GOMEMLIMIT=3GiB")
+	cmd.Env = append(env(), "GORACE=log_path="+raceLog+" halt_on_error=0 exitcode=0 history_size=2", "GOMEMLIMIT=3GiB")
 	var ob bytes.Buffer
 	cmd.Stdout, cmd.Stderr = &ob, &ob
 	err := cmd.Run()
@@ -492,7 +492,7 @@ func shrinkInProcess(worker, prop string, rf *replayFile) (*replayFile, int) {
 	defer os.Remove(inPath)
 	defer os.Remove(outPath)
 	raceLog := filepath.Join(buildDir(), "race", fmt.Sprintf("%s-s%d", prop, id))
-	out, err := runCmd(root, []string{"GORACE=log_path=" + raceLog + " halt_on_error=0", "GOMEMLIMIT=3GiB"}, worker, "-prop", prop, "-shrink", inPath, "-npoints", strconv.Itoa(len(pointTable)), "-out", outPath)
+	out, err := runCmd(root, []string{"GORACE=log_path=" + raceLog + " halt_on_error=0 exitcode=0", "GOMEMLIMIT=3GiB"}, worker, "-prop", prop, "-shrink", inPath, "-npoints", strconv.Itoa(len(pointTable)), "-out", outPath)
 	matches, _ := filepath.Glob(raceLog + ".*")
 	for _, m := range matches {
 		os.Remove(m)
